@@ -54,6 +54,7 @@ theorem timerStep_inv {x : Option Nat} {w : World} (h : WInvX x w) (w' : World)
   case connackOwned => rw [hc, hf, hprot]; intro t cr hp; exact h.connackOwned t cr ((hP _ _ (by simp)).mp hp)
   case retryLive => rw [hprot]; intro t p rid hp; exact h.retryLive t p rid ((hP _ _ (by simp)).mp hp)
   case connReqLive => rw [hprot, hc, hf]; exact h.connReqLive
+  case connReqRef => rw [hprot, hncr]; exact h.connReqRef
   case subArmed => rw [he, hprot]; simp only [hreq]; exact h.subArmed
   case profileOk => rw [hprofile]; exact h.profileOk
   case bufOk => rw [hprot]; exact h.bufOk
@@ -181,6 +182,7 @@ theorem connTimeout_inv {x : Option Nat} {w : World} (h : WInvX x w) (t : Nat) (
       rcases (hfd d').mp hm with rfl | hm
       · exact hother cr' c' d' hne hc' hd' rfl
       · exact (h.connReqLive p pr cr' c' hp hcq' hc').2 d' hd' hm
+  case connReqRef => exact h.connReqRef
   case subArmed => exact h.subArmed
   case profileOk => exact h.profileOk
   case bufOk => exact h.bufOk
